@@ -1,6 +1,6 @@
 # executed by tools_manifest.py
 PENDING.update({k: 'check not built yet in this commit (claimed in DESIGN.md section 4; will move to checks when its machinery lands)'
-                for k in ['C01', 'C02', 'C08', 'C10', 'C11', 'C12', 'C13', 'C17', 'C19']})
+                for k in ['C01', 'C02', 'C08', 'C10', 'C11', 'C12', 'C13', 'C17']})
 
 check('C09', 'fault_enumeration',
       'For every sampled experiment configuration the complete single-crash space (after every mutating file-system effect x every '
@@ -13,3 +13,16 @@ check('C09', 'fault_enumeration',
       'pickle, and that the simulated algorithm/evaluations are round-deterministic.',
       'deterministic crash simulation on a simulated file system (exhaustive crash-point sweep per configuration + seeded multi-crash sequences), golden-run oracle',
       'DESIGN.md 2.2, 4 (C09)')
+
+check('C19', 'fault_enumeration',
+      'For every sampled cache configuration (payload sizes around the 256 KiB transfer block and the 64 KiB copy buffer, compressed or '
+      'not, stale .partial, pre-cached files) the complete single-fault space is executed against the real maybe_download / '
+      'maybe_lzma_decompress / validate_file over real requests+urllib3+lzma+shutil: crash after every file-system effect x write-buffer '
+      'prefix, ENOSPC/EIO on every effect, connection reset / premature EOF around every block boundary, HTTP errors, read errors on the '
+      'compressed file; plus seeded sequences of 2-4 mixed interruptions. Invariant after every effect: each final cache name is absent or '
+      'complete and correct; afterwards a fault-free call repairs the cache with at most one request per missing file, and a further call '
+      'touches neither network nor disk. Exhaustive per configuration, sampled across configurations.',
+      'Trusts the SimFS/SimNet models (socket body under the real urllib3 HTTPResponse; a truncation finding was re-confirmed over a real '
+      'loopback socket), correct content-length from the origin, process-crash (not power-loss) semantics.',
+      'deterministic fault-injection simulation of disk and network (exhaustive single-fault sweep per configuration + seeded fault sequences), reference content oracle',
+      'DESIGN.md 2.2, 2.3, 4 (C19)')
